@@ -8,6 +8,7 @@
 mod builder;
 mod common;
 mod engine;
+mod loader;
 mod operand;
 mod reflect;
 mod spirv_enums;
@@ -63,6 +64,7 @@ fn main() {
     out.insert("engine".into(), engine::extract(&mut cx));
     out.insert("builder".into(), builder::extract(&mut cx));
     out.insert("traverse".into(), traverse::extract(&mut cx));
+    out.insert("loader".into(), loader::extract(&mut cx));
     out.insert("failures".into(), json!(cx.failures));
     let v = Value::Object(out);
     std::fs::write(&args[2], serde_json::to_string_pretty(&v).unwrap()).unwrap();
